@@ -212,6 +212,36 @@ func failureEdge(a *an.Atom) bool {
 	if a.Op == "==" && (isNilConst(a.LV) || isNilConst(a.RV)) {
 		return true
 	}
+	// a validator: a receiver-less module function over the entry's own parameters reports a problem (a non-zero
+	// constant comparison of its result): the malformed-argument tests live in that function
+	if a.Op == "!=" {
+		for _, side := range [][2]ssa.Value{{a.LV, a.RV}, {a.RV, a.LV}} {
+			if _, isConst := side[1].(*ssa.Const); !isConst {
+				continue
+			}
+			v := side[0]
+			if ex, ok := v.(*ssa.Extract); ok {
+				v = ex.Tuple
+			}
+			call, ok := v.(*ssa.Call)
+			if !ok || call.Call.IsInvoke() {
+				continue
+			}
+			f := call.Call.StaticCallee()
+			if f == nil || !prog.InModule(f) || f.Signature.Recv() != nil || len(call.Call.Args) == 0 {
+				continue
+			}
+			onlyParams := true
+			for _, arg := range call.Call.Args {
+				if p, isParam := arg.(*ssa.Parameter); !isParam || p.Parent() != call.Parent() {
+					onlyParams = false
+				}
+			}
+			if onlyParams {
+				return true
+			}
+		}
+	}
 	return false
 }
 
